@@ -11,8 +11,9 @@
  * Modes (define before inclusion):
  *   (none)      plain semantics, used for translation validation (native run)
  *   T0N_TRACK   ghost registers record the lowest/highest stack index touched
- *   T0N_GUARD   every stack access assumes 0 <= index < N (what E4 proves for
- *               every reachable call site); used by the C05 layer-2 harness
+ *   T0N_GUARD   every stack access is CHECKED to satisfy 0 <= index < N (the harness
+ *               assumes the entry depth leaves room for the native's need/peak, which
+ *               E4 proves for every reachable call site); C05 layer-2 harness
  * Hooks (may be pre-defined): T0_ADDR(base, off, width)
  */
 #ifndef T0N_VM_H
@@ -29,8 +30,8 @@ static uint32_t t0n_dlo, t0n_dhi, t0n_rlo, t0n_rhi;
 static inline uint32_t t0n_dat(uint32_t i) { if (i < t0n_dlo) t0n_dlo = i; if (i + 1 > t0n_dhi) t0n_dhi = i + 1; return i; }
 static inline uint32_t t0n_rat(uint32_t i) { if (i < t0n_rlo) t0n_rlo = i; if (i + 1 > t0n_rhi) t0n_rhi = i + 1; return i; }
 #elif defined(T0N_GUARD)
-static inline uint32_t t0n_dat(uint32_t i) { T0N_ASSUME(i < T0N_NDP); return i; }
-static inline uint32_t t0n_rat(uint32_t i) { T0N_ASSUME(i < T0N_NRP); return i; }
+static inline uint32_t t0n_dat(uint32_t i) { T0N_CHECK(i < T0N_NDP, "data stack slot index in range"); return i; }
+static inline uint32_t t0n_rat(uint32_t i) { T0N_CHECK(i < T0N_NRP, "return stack slot index in range"); return i; }
 #else
 static inline uint32_t t0n_dat(uint32_t i) { return i; }
 static inline uint32_t t0n_rat(uint32_t i) { return i; }
